@@ -23,9 +23,9 @@ def hexDigit (n : Nat) : Char :=
 def toHex4 (n : Nat) : List Char :=
   [hexDigit (n / 4096 % 16), hexDigit (n / 256 % 16), hexDigit (n / 16 % 16), hexDigit (n % 16)]
 
-/-- The `case r < 0x20 || r == 0x7f || r == 0x2028 || r == 0x2029` guard of `RegoString`. -/
+/-- The `case r < 0x20 || r == 0x7f || r == 0x2028 || r == 0x2029 || r == 0xfeff` guard of `RegoString`. -/
 def needsU (c : Char) : Bool :=
-  decide (c.toNat < 0x20) || c.toNat == 0x7f || c.toNat == 0x2028 || c.toNat == 0x2029
+  decide (c.toNat < 0x20) || c.toNat == 0x7f || c.toNat == 0x2028 || c.toNat == 0x2029 || c.toNat == 0xfeff
 
 /-- The body of the `switch` in `RegoString`, in the order of its cases. -/
 def quoteChar (c : Char) : List Char :=
@@ -81,7 +81,8 @@ def consDecoded (c : Char) : Option (List Char × List Char) → Option (List Ch
 
 /-- Reads the inside of a literal (the opening quote has been consumed) up to and including the closing
 unescaped quote.  Returns the decoded characters and the input after the closing quote.
-`none`: missing closing quote, raw control character, unknown escape, bad `\u` escape. -/
+`none`: missing closing quote, raw control character, raw byte-order mark (the engine's scanner refuses U+FEFF
+anywhere but at offset 0: "illegal byte-order mark"), unknown escape, bad `\u` escape. -/
 def lexBody : List Char → Option (List Char × List Char)
   | [] => none
   | c :: rest =>
@@ -103,6 +104,7 @@ def lexBody : List Char → Option (List Char × List Char)
           | none => none
           | some ch => consDecoded ch (lexBody rest1)
     else if c.toNat < 0x20 then none
+    else if c.toNat = 0xfeff then none
     else consDecoded c (lexBody rest)
 
 /-- Lexer of a Rego / JSON string literal: the input must start with `"`. -/
